@@ -196,6 +196,8 @@ func convCheck(field string) SchemaRes {
 		{"*big.Int negative", big.NewInt(-7), new(big.Int).Sub(mod, big.NewInt(7))},
 		{"decimal string", "12", new(big.Int).Mod(big.NewInt(12), mod)}, {"hex string", "0x1f", new(big.Int).Mod(big.NewInt(31), mod)},
 		{"binary string", "0b101", big.NewInt(5)}, {"octal string", "0o17", big.NewInt(15)},
+		// (big.Int).SetString(s, 0): a leading "0" selects base 8
+		{"leading-zero string", "010", big.NewInt(8)}, {"leading-zeros string", "0017", big.NewInt(15)}, {"zero string", "0", big.NewInt(0)},
 		{"decimal string >= p", tp1.String(), big.NewInt(1)}, {"negative string", "-2", new(big.Int).Sub(mod, big.NewInt(2))},
 		{"bytes", []byte{1, 0}, new(big.Int).Mod(big.NewInt(256), mod)},
 	}
